@@ -101,12 +101,11 @@ impl<T: Hash + Eq> IdSet<T> {
         use std::collections::hash_map::Entry;
         match self.map.entry(ptr) {
             Entry::Occupied(entry) => {
-                if value_ref == entry.key().0 {
-                    *entry.get()
-                } else {
-                    self.current_buf.pop();
-                    *entry.get()
-                }
+                // already interned: take the duplicate back out. (For a zero-sized T the new slot has
+                // the same address as every other element, so the addresses say nothing.)
+                let id = *entry.get();
+                self.current_buf.pop();
+                id
             }
             Entry::Vacant(entry) => {
                 entry.insert(new_id);
